@@ -102,7 +102,9 @@ Holds(W, t, a) ==
           Sat(W, t, a.c)
     [] t.k = "union"  -> \E j \in DOMAIN t.args : Holds(W, t.args[j], a)
     [] t.k = "inter"  -> \A j \in DOMAIN t.args : Holds(W, t.args[j], a)
-    [] t.k = "lit"    -> \E j \in DOMAIN t.vals : ValEq(t.vals[j], a.v)
+    \* Literal: an instance of the literal's bound (the classes of its values) equal to one of them:
+    \* Literal[1] admits True (a bool is an int), Literal[True] does not admit 1
+    [] t.k = "lit"    -> Sat(W, t.bound, a.c) /\ \E j \in DOMAIN t.vals : ValEq(t.vals[j], a.v)
     [] t.k = "dep"    -> Sat(W, t.bound, a.c) /\ a.name \in Range(t.holds)
     [] t.k = "prod"   -> /\ Sat(W, t.bound, a.c) /\ a.v.t = "tuple"
                          /\ Len(a.v.v) = Len(t.args)
